@@ -495,6 +495,12 @@ class Fold(ast.NodeTransformer):
                 # the largest of some booleans is True iff any of them is; the smallest iff all are
                 a0 = node.args[0]
                 return self.hit(self.visit(ast.Call(func=ast.Name(id='any' if f.id == 'max' else 'all', ctx=ast.Load()), args=[ast.GeneratorExp(elt=a0.elt, generators=a0.generators)], keywords=[])), node)
+            if f.id in ('any', 'all') and len(node.args) == 1 and not node.keywords and isinstance(node.args[0], (ast.GeneratorExp, ast.ListComp)) and f.id not in self.shadowed \
+                    and isinstance(node.args[0].elt, ast.UnaryOp) and isinstance(node.args[0].elt.op, ast.Not):
+                # any(not C ..) -> not all(C ..) ; all(not C ..) -> not any(C ..)       (De Morgan: the element test is written positively)
+                a0 = node.args[0]
+                inner = ast.Call(func=ast.Name(id='all' if f.id == 'any' else 'any', ctx=ast.Load()), args=[type(a0)(elt=a0.elt.operand, generators=a0.generators)], keywords=[])
+                return self.hit(self.visit(ast.UnaryOp(op=ast.Not(), operand=inner)), node)
             if f.id in ('any', 'all') and len(node.args) == 1 and not node.keywords and isinstance(node.args[0], (ast.GeneratorExp, ast.ListComp, ast.Tuple, ast.List)):
                 a0 = node.args[0]
                 from .normalize import UnrollComp
@@ -735,6 +741,17 @@ class Fold(ast.NodeTransformer):
 
     def visit_Compare(self, node):
         self.generic_visit(node)
+        # next((v for v in X if C), _MARK) is not _MARK  ->  any(C for v in X)      (_MARK = object(): a private marker no element can be)
+        if len(node.ops) == 1 and isinstance(node.ops[0], (ast.Is, ast.IsNot)) and isinstance(node.comparators[0], ast.Name) and node.comparators[0].id in _SENTINELS \
+                and node.comparators[0].id not in self.shadowed and isinstance(node.left, ast.Call) and isinstance(node.left.func, ast.Name) and node.left.func.id == 'next' \
+                and len(node.left.args) == 2 and not node.left.keywords and isinstance(node.left.args[1], ast.Name) and node.left.args[1].id == node.comparators[0].id \
+                and isinstance(node.left.args[0], ast.GeneratorExp) and len(node.left.args[0].generators) == 1 and 'next' not in self.shadowed:
+            g = node.left.args[0]
+            conds = list(g.generators[0].ifs)
+            test = ast.Constant(value=True) if not conds else (conds[0] if len(conds) == 1 else ast.BoolOp(op=ast.And(), values=conds))
+            anyc = ast.Call(func=ast.Name(id='any', ctx=ast.Load()), args=[ast.GeneratorExp(elt=test, generators=[ast.comprehension(target=g.generators[0].target, iter=g.generators[0].iter, ifs=[], is_async=0)])], keywords=[])
+            e = anyc if isinstance(node.ops[0], ast.IsNot) else ast.UnaryOp(op=ast.Not(), operand=anyc)
+            return self.hit(self.visit(e), node)
         # True in {bool(x) for x in xs}  ->  any(bool(x) for x in xs) ;  False in [..]  ->  not all(..)         (collections of booleans)
         if len(node.ops) == 1 and isinstance(node.ops[0], (ast.In, ast.NotIn)) and isinstance(node.left, ast.Constant) and isinstance(node.left.value, bool):
             c = node.comparators[0]
@@ -1409,6 +1426,7 @@ def _record_dicts(fn):
 
 
 _RECORDS = {}
+_SENTINELS = set()      # private module-level markers `_NAME = object()` of the module being lowered
 
 
 def _later_in_same_block(fn, stmt, nodes):
@@ -1818,14 +1836,19 @@ def _first_match_loops(fn):
                 rebinding = any(isinstance(n, ast.Name) and n.id in names and isinstance(n.ctx, (ast.Store, ast.Del)) for st in s.body for n in ast.walk(st))
                 nested = any(isinstance(n, (ast.FunctionDef, ast.Lambda)) for st in s.body for n in ast.walk(st))
                 if rs and not rebinding and not nested:
+                    inside = {id(n) for n in ast.walk(s)}
+                    live = [nm for nm in (list(rs[0]) if rs else []) if any(isinstance(n, ast.Name) and n.id == nm and id(n) not in inside for n in ast.walk(fn))]
+
+                    def binds(r):
+                        return [ast.copy_location(ast.Assign(targets=[ast.Name(id=nm, ctx=ast.Store())], value=copy.deepcopy(r[nm])), s) for nm in live]
                     brk = [n for st in s.body for n in ast.walk(st) if isinstance(n, (ast.Break, ast.Continue))]
                     if len(s.body) == 1 and isinstance(s.body[0], ast.If) and not s.body[0].orelse and s.body[0].body and isinstance(s.body[0].body[-1], ast.Break) \
                             and len(brk) == 1:
                         # first-match dispatch
-                        chain = list(s.orelse)
+                        chain = (binds(rs[-1]) if live and not (s.orelse and isinstance(s.orelse[-1], (ast.Raise, ast.Return))) else []) + list(s.orelse)
                         for r in reversed(rs):
                             test = subst([ast.Expr(value=s.body[0].test)], r)[0].value
-                            body = subst(s.body[0].body[:-1], r) or [ast.Pass()]
+                            body = (binds(r) + subst(s.body[0].body[:-1], r)) or [ast.Pass()]
                             node = ast.If(test=test, body=body, orelse=chain)
                             ast.copy_location(node, s)
                             chain = [node]
@@ -1839,6 +1862,9 @@ def _first_match_loops(fn):
                             for st in subst(s.body, r):
                                 ast.fix_missing_locations(st)
                                 out.append(st)
+                        for st in binds(rs[-1]):
+                            ast.fix_missing_locations(st)
+                            out.append(st)
                         changed[0] = True
                         continue
             out.append(s)
@@ -3459,6 +3485,15 @@ def lower_module(tree, inliner, extra_passes=()):
     ctx = _partial_names(tree)
     _RECORDS.clear()
     _RECORDS.update(_record_classes(tree))
+    _SENTINELS.clear()
+    stores = {}
+    for n in ast.walk(tree):
+        if isinstance(n, ast.Name) and isinstance(n.ctx, (ast.Store, ast.Del)):
+            stores[n.id] = stores.get(n.id, 0) + 1
+    for st in tree.body:
+        if isinstance(st, ast.Assign) and len(st.targets) == 1 and isinstance(st.targets[0], ast.Name) and st.targets[0].id.startswith('_') and stores.get(st.targets[0].id) == 1 \
+                and isinstance(st.value, ast.Call) and isinstance(st.value.func, ast.Name) and st.value.func.id == 'object' and not st.value.args and not st.value.keywords:
+            _SENTINELS.add(st.targets[0].id)
     for it in range(8):
         before = ast.dump(tree)
         module_consts(tree)
